@@ -21,6 +21,7 @@ func init() {
 			"a week's index in a month/year is 1 + the number of week-start days after the first day of the month/year up to the date",
 		},
 		Gen: c15Gen, Run: c15Run,
+		BlockKind: "year", BlockQuick: [2]int{8, 8}, BlockThorough: [2]int{0, 25},
 		Exhaustive: func(tier string) bool { return false },
 		MinEvals:   map[string]int64{"quick": 2000000, "thorough": 100000000},
 		Chunks:     128,
